@@ -93,8 +93,27 @@ def fresh_copy():
     sh('cd %s && git init -q . && git add -A && git -c user.email=a@b -c user.name=x commit -qm base' % SCR)
 
 
+def merge(n, benign):
+    allr = {}
+    for i in range(n):
+        fn = os.path.join(VERIF, 'selftest_%sresults.%d.json' % ('benign_' if benign else '', i))
+        for e in json.load(open(fn)):
+            allr[e['id']] = e
+        os.remove(fn)
+    order = [m[0] for m in (BENIGN if benign else MUTANTS)]
+    res = [allr[i] for i in order if i in allr]
+    if benign:
+        json.dump({'tier': 'quick', 'benign_edits': res}, open(os.path.join(VERIF, 'selftest_benign_results.json'), 'w'), indent=1)
+        print('merged %d of %d benign edits, false alarms: %s' % (len(res), len(order), [r['id'] for r in res if r.get('fired')]))
+    else:
+        json.dump({'tier': 'quick', 'mutants': res}, open(os.path.join(VERIF, 'selftest_results.json'), 'w'), indent=1)
+        print('merged %d of %d mutants, not caught: %s' % (len(res), len(order), [r['id'] for r in res if r['status'] != 'caught']))
+    return 0
+
+
 def main():
     only = None
+    shard = None
     tier = 'quick'
     args = sys.argv[1:]
     while args:
@@ -103,11 +122,18 @@ def main():
             only = set(args.pop(0).split(','))
         elif a == '--tier':
             tier = args.pop(0)
+        elif a == '--shard':      # --shard i/n: every n-th entry starting at i; run shards concurrently with distinct SELFTEST_SCRATCH / SELFTEST_OUT
+            x, y = args.pop(0).split('/')
+            shard = (int(x), int(y))
+        elif a == '--merge':      # --merge n: combine the shard result files
+            return merge(int(args.pop(0)), '--benign' in sys.argv)
     fresh_copy()
     env = dict(os.environ, GLAM_REPO=SCR, GLAM_VERIF_OUT=OUT)
     results = []
     benign = '--benign' in sys.argv
-    for mut in (BENIGN if benign else MUTANTS):
+    for idx, mut in enumerate(BENIGN if benign else MUTANTS):
+        if shard and idx % shard[1] != shard[0]:
+            continue
         (mid, rel, old, new, checks, note) = mut[:6]
         mtier = mut[6] if len(mut) > 6 else tier
         if only and mid not in only:
@@ -143,6 +169,10 @@ def main():
     if '--keep' not in sys.argv:
         shutil.rmtree(SCR, ignore_errors=True)
         shutil.rmtree(OUT, ignore_errors=True)
+    if shard:
+        json.dump(results, open(os.path.join(VERIF, 'selftest_%sresults.%d.json' % ('benign_' if benign else '', shard[0])), 'w'), indent=1)
+        print('shard done: not caught / alarms: %s' % [r['id'] for r in results if (r.get('fired') if benign else r['status'] != 'caught')])
+        return 0
     if benign:
         alarms = [r['id'] for r in results if r.get('fired')]
         if not only:
